@@ -336,6 +336,14 @@ def named_families():
         m = {chain[i]: chain[i + 1] for i in range(cut)}
         m[chain[cut]] = EMPTY
         fams.append(("empty-response-at-%d" % cut, m))
+    # sub-identifiers beyond 32 bits (illegal in the SMI, but BER can carry them and the
+    # statement says "whatever the agent answers"): going back from such an arc to a
+    # small one that is larger modulo 2^32 / 2^64, staying on it, and going up to it
+    for huge in (2**32, 2**32 + 4, 2**63, 2**64 + 1, 2**70):
+        h = ROOT + (huge,)
+        for back in (ROOT + (huge % 2**32 + 3,), ROOT + (7,), h, ROOT + (huge - 1,)):
+            fams.append(("huge-arc-%d-then-%s" % (huge, back[-1]), {ROOT: h, h: back, back: None} if back != h else {ROOT: h, h: h}))
+        fams.append(("up-to-huge-arc-%d" % huge, {ROOT: ins[0], ins[0]: h, h: ROOT + (huge + 1,), ROOT + (huge + 1,): AFTER}))
     return fams
 
 
